@@ -20,7 +20,9 @@ import tokenize
 from concurrent.futures import ThreadPoolExecutor
 from pathlib import Path
 
-OUT = Path("/tmp/mut")
+import os
+
+OUT = Path(os.environ.get("MUT_OUT", "/tmp/mut"))
 REPO = "/repo"
 # file -> (line ranges or None = whole file, test paths, primary checks, secondary checks, sample size)
 TARGETS = {
@@ -96,7 +98,10 @@ def gen():
     OUT.mkdir(exist_ok=True)
     for f in OUT.glob("*.diff"):
         f.unlink()
-    rng = random.Random(20260927)
+    rng = random.Random(int(os.environ.get("MUT_SEED", "20260927")))
+    skip = set()
+    if os.environ.get("MUT_SKIP"):
+        skip = {(m["file"], m["line"], m["old"], m["new"]) for m in json.loads(Path(os.environ["MUT_SKIP"]).read_text())}
     index = []
     n = 0
     for path, (ranges, tests, prim, sec, k) in TARGETS.items():
@@ -105,7 +110,7 @@ def gen():
         seen_lines = {}
         picked = []
         for c in cands:
-            if seen_lines.get(c[0], 0) >= 2:
+            if seen_lines.get(c[0], 0) >= 2 or (path, c[0], c[3], c[4]) in skip:
                 continue
             seen_lines[c[0]] = seen_lines.get(c[0], 0) + 1
             picked.append(c)
